@@ -79,12 +79,10 @@ def u32 (b : Bytes) : X UInt32 :=
   | a :: c :: d :: e :: _ => .ok ((a.toUInt32 <<< 24) ||| (c.toUInt32 <<< 16) ||| (d.toUInt32 <<< 8) ||| e.toUInt32)
   | _ => .panic
 
-/-- `binary.BigEndian.Uint64(b)` -/
+/-- `binary.BigEndian.Uint64(b)`: the big-endian value of the first eight bytes -/
 def u64 (b : Bytes) : X UInt64 :=
   match b with
-  | a :: c :: d :: e :: f :: g :: h :: i :: _ =>
-    .ok ((a.toUInt64 <<< 56) ||| (c.toUInt64 <<< 48) ||| (d.toUInt64 <<< 40) ||| (e.toUInt64 <<< 32)
-      ||| (f.toUInt64 <<< 24) ||| (g.toUInt64 <<< 16) ||| (h.toUInt64 <<< 8) ||| i.toUInt64)
+  | a :: c :: d :: e :: f :: g :: h :: i :: _ => .ok (UInt64.ofNat (beN [a, c, d, e, f, g, h, i]))
   | _ => .panic
 
 /-- the two bytes `binary.BigEndian.PutUint16` / `AppendUint16` write -/
